@@ -368,6 +368,10 @@ def case_detect(ctx, rng, idx):
     r = reshape_kind(r, shape_kind, rng)
     if cls == "BPSK" and rng.random() < 0.3:
         r = np.asarray(r.real)      # BPSK is commonly fed real samples
+    elif cls != "BPSK" and rng.random() < 0.12:
+        # received values that happen to be held in a real (float or integer) array
+        r = np.asarray(r.real) if rng.random() < 0.6 else np.rint(np.asarray(r.real) * 3).astype(
+            [np.int64, np.int32][int(rng.integers(0, 2))])
     monitors.ACTIVE[0] = ctx
     try:
         check_detection(ctx, m, spec, okind, r, sclass)
@@ -404,6 +408,52 @@ def case_reject(ctx, rng, idx):
     ctx.sig("reject", idx)
 
 
+def case_psk_offsets(ctx, rng, idx):
+    """Many phase offsets on fresh PSK objects (constructor argument and public
+    setter): the table keeps exactly M distinct unit-energy points, every index
+    round-trips and index M is refused."""
+    M = int(2 ** rng.integers(1, 9 if ctx.tier == "quick" else 11))
+    off = [float(rng.uniform(-7, 7)), float(rng.uniform(0, 2 * math.pi)),
+           float(rng.integers(-8, 9)) * math.pi / M,
+           float(rng.uniform(0, 2 * math.pi)) + 2 * math.pi * int(rng.integers(-3, 4))][
+        int(rng.integers(0, 4))]
+    via = ["setter", "ctor", "setter-after-use"][int(rng.integers(0, 3))]
+    spec = ("PSK", M)
+    tag = {"spec": spec, "offset": off, "via": via}
+
+    def make():
+        if via == "ctor":
+            return F.PSK(M, off)
+        m = F.PSK(M)
+        if via == "setter-after-use":
+            m.demodulate(m.modulate(np.arange(M)))
+        m.setPhaseOffset(off)
+        return m
+    okc, m = ctx.call("table-size", make, cls="offset-raised", detail=tag)
+    if not okc:
+        return
+    monitors.ACTIVE[0] = ctx
+    try:
+        check_constellation(ctx, m, spec, "offset:" + via)
+        allidx = np.arange(M)
+        okc, back = ctx.call("round-trip", lambda: m.demodulate(m.modulate(allidx)), detail=tag)
+        if okc:
+            ctx.ev("round-trip", np.array_equal(np.asarray(back), allidx), cls="mismatch:offset",
+                   detail=tag)
+        try:
+            out = m.modulate(np.array([0, M]))
+            ctx.ev("reject-index", False, cls="emitted:offset",
+                   detail={**tag, "emitted": np.asarray(out)})
+        except ValueError:
+            ctx.ev("reject-index", True)
+        except Exception as e:
+            ctx.ev("reject-index", False, cls="wrong-exception:offset",
+                   detail={**tag, "exc": repr(e)})
+    finally:
+        monitors.ACTIVE[0] = None
+    ctx.sig("psk-offset", M, via, int(off // 1))
+
+
 # ---- contracts on the real methods (fire on every call, also nested ones) --
 def _post_modulate(ctx, args, kwargs, result):
     self = args[0]
@@ -437,6 +487,7 @@ GENS = {
     "constellation": Gen(case_constellation, NSPEC_Q * len(OFFSET_KINDS),
                          NSPEC_T * len(OFFSET_KINDS), exhaustive=True),
     "reject": Gen(case_reject, 4097 // 64 + 1, 4097 // 64 + 1, exhaustive=True),
+    "psk-offsets": Gen(case_psk_offsets, 700, 120000),
     "detect": Gen(case_detect, NSPEC_Q * len(SAMPLE_CLASSES) * 12,
                   NSPEC_T * len(SAMPLE_CLASSES) * 400),
 }
